@@ -42,7 +42,8 @@ Fail(msg) == verdict' = msg /\ UNCHANGED <<stack, la, pos, nrec, lastrec, pend>>
 Tok == e.e = "tok" /\ Step /\
   IF la # "-" THEN Fail("lr:rescan-with-pending-lookahead")
   ELSE la' = e.sym /\ pos' = e.pos /\ UNCHANGED <<stack, verdict, nrec, lastrec, pend>>
-Strat == e.e = "strat" /\ Step /\ pend' = <<e.ok, e.sym, e.pos>> /\ UNCHANGED <<stack, la, pos, verdict, nrec, lastrec>>
+\* (a lookahead the strategy left although it was scanned BEFORE the position the strategy moved to is stale: the parser drops it)
+Strat == e.e = "strat" /\ Step /\ pend' = <<e.ok, IF e.sym # "-" /\ "tpos" \in DOMAIN e /\ e.tpos < e.pos THEN "-" ELSE e.sym, e.pos>> /\ UNCHANGED <<stack, la, pos, verdict, nrec, lastrec>>
 Shift == e.e = "shift" /\ Step /\
   IF ~Has(Top, la, [a |-> "S", to |-> e.st]) THEN Fail("lr:shift-not-in-table")
   ELSE /\ stack' = Append(stack, e.st) /\ pos' = e.pos /\ la' = "-" /\ UNCHANGED <<verdict, nrec, lastrec, pend>>
@@ -64,7 +65,11 @@ Error == e.e = "error" /\ Step /\
   ELSE UNCHANGED <<stack, la, pos, verdict, nrec, lastrec, pend>>
 Recover == e.e = "recover" /\ Step /\ nrec' = nrec + 1 /\ UNCHANGED stack /\ pend' = NoPend /\
   IF pend # NoPend /\ (e.ok # pend[1] \/ (e.ok /\ (e.sym # pend[2] \/ e.pos # pend[3])))
-  THEN verdict' = "C11:parser-does-not-continue-from-what-the-strategy-left" /\ UNCHANGED <<la, pos, lastrec>> ELSE
+  THEN verdict' = "C11:parser-does-not-continue-from-what-the-strategy-left" /\ UNCHANGED <<la, pos, lastrec>>
+  \* a successful recovery resumes with no lookahead (it is scanned next) or with a token AT OR AFTER the resume position: a lookahead that
+  \* was scanned before the skipped text is stale (with it the same error repeats for ever: the machine would not terminate)
+  ELSE IF e.ok /\ e.sym # "-" /\ "tpos" \in DOMAIN e /\ e.tpos < e.pos
+  THEN verdict' = "C11:recovery-resumes-with-a-lookahead-scanned-before-the-resume-position" /\ UNCHANGED <<la, pos, lastrec>> ELSE
   \* progress is demanded of the DEFAULT strategy; a custom strategy decides itself what it does to the head
   IF C.strategy \in {"default", "wrap"} /\ e.ok /\ <<e.pos, e.sym, stack>> = lastrec THEN verdict' = "C11:recovery-without-progress" /\ UNCHANGED <<la, pos, lastrec>>
   ELSE IF C.strategy \in {"default", "wrap"} /\ e.ok /\ e.pos <= pos THEN verdict' = "C11:default-recovery-does-not-advance" /\ UNCHANGED <<la, pos, lastrec>>
